@@ -2,6 +2,7 @@
    Statements only. *)
 From Coq Require Import List String NArith ZArith Bool.
 From AM Require Import Rust.Ast Gen.Records Gen.Anycache Gen.Asset Ref.Load Ref.Sys Proofs.SysRecs Proofs.SysGraph Tie.Records.
+From AM Require Import Gen.Dirs Tie.Dirs.
 Import ListNotations.
 
 (* the code records as the model does: fresh record per reloadable load behind a drop guard,
@@ -76,3 +77,15 @@ Theorem C14_graph_directions_agree_in_every_history : forall reloader ops a d,
   let g := graph (fst (run (init_st reloader) ops)) in
   dep_mem a (rdeps_of g d) = dep_mem d (deps_of g a).
 Proof. intros reloader ops. exact (graph_symmetric_from_the_start reloader ops). Qed.
+
+(* the directory assets of the crate load what they list through the recording cache, outside any
+   no_record scope: Directory<T> reads its listing itself, RecursiveDirectory<T> loads the directory
+   and every sub-directory with cache.load *)
+Theorem C14_code_directory_assets_record_what_they_load :
+  dir_load_wf Directory_load = true /\ rec_load_wf RecursiveDirectory_load = true /\
+  subdirs_wf sub_directories = true.
+Proof.
+  exact (conj (proj1 (proj2 (proj2 (proj2 (proj2 (proj2 dirs_as_specified))))))
+          (conj (proj2 (proj2 (proj2 (proj2 (proj2 (proj2 dirs_as_specified))))))
+                (proj1 (proj2 (proj2 dirs_as_specified))))).
+Qed.
